@@ -1,6 +1,7 @@
 (* C12 -- batch results are positional.  Property theorems only; each is closed by `exact <lemma>`.
-   Vocabulary: Model/ClientMgr.v (the async/WebSocket client: `batch_response`, `handle_back`, `array_loop`,
-   `placeholder`, `id_as_number` = Id::try_parse_inner_as_number), Model/HttpBatch.v (the HTTP client: `http_batch`,
+   Vocabulary: Model/ClientMgr.v (the async/WebSocket client: `batch_response`, `handle_back` -- the frame handler, which
+   interprets the dispatch read from the source, Gen/ClientDispatchGen.v --, `placeholder`, `id_as_number` =
+   Id::try_parse_inner_as_number), Model/HttpBatch.v (the HTTP client: `http_batch`,
    `http_reply`, `count_ok`, `count_err`) and the specification part of Proofs/ClientMgrC12.v:
      resps ms            the responses of an array frame, in the server's order
      last_with k rs      the last response of rs whose (normalised) id is k
